@@ -221,14 +221,14 @@ def check(ctx, replay=None):
                 b, extra_cfg = "kotlin", ["kotlin.use_finalizers_not_cleaners=true"]
             q = e2e.run_tool(b, src, o, config=CFG + extra_cfg)
             if q.returncode != 0:
-                if viol < 3:
+                if len(ctx.violations) < 3:
                     viol += 1
                     ctx.violation(f"tool:{b}", {"modules": mods, "lib_rs": src_txt, "what": f"diplomat-tool {b} failed: {q.stderr[-600:]}"}, True)
                 continue
             refs = refs_of(b, o)
             goals.append(f"agree_referenced {cstr(b)} {cm} {clist([cstr(s) for s in sorted(refs)])}"); meta.append((b, mods))
             extra = refs - exported
-            if extra and viol < 3:
+            if extra and len(ctx.violations) < 3:
                 viol += 1
                 ctx.violation(f"direct:unexported:{b}", {"modules": mods, "lib_rs": src_txt, "backend": b,
                               "what": f"{b} bindings refer to {sorted(extra)[:6]} which the Rust library does not export (nm)"}, True)
@@ -238,7 +238,7 @@ def check(ctx, replay=None):
         if bi == 0:
             samples.append({"lib_rs": src_txt[:1500]})
     fails = run_shards(PROP, HEADER, goals, per_shard=8) if goals else []
-    if fails and viol == 0:
+    if fails and not ctx.violations:
         for f in fails[:3]:
             ctx.violation(f"corr:{meta[f][0]}", {"modules": meta[f][1], "lib_rs": bridge(meta[f][1]), "broken": "correspondence goal " + goals[f][:200] +
                           "... : the set of symbols " + ("exported by the macro-built library" if meta[f][0] == "exported" else f"referenced by the {meta[f][0]} bindings") +
